@@ -211,6 +211,7 @@ func checkC17(c *Ctx) {
 	_ = r
 	c17RootsFixpoint(c)
 	c17FileFilter(c)
+	c17ClosurePrivateState(c)
 }
 
 // c17FileFilter: the per-package file filter of the loader and the root import
@@ -368,3 +369,121 @@ func c17RootsFixpoint(c *Ctx) {
 var c17CaptureExempt = map[string]string{}
 
 var c17MapExceptions = map[string]string{}
+
+// c17ClosurePrivateState: a variable that is declared in the enclosing
+// function but used *only* inside one function literal, and assigned there, is
+// state that survives from one call of the literal to the next. For the
+// callbacks of the module loaders (called once per candidate module prefix,
+// per package, per root) that is a sequential leak: the answer for one argument
+// depends on the arguments seen before.
+func c17ClosurePrivateState(c *Ctx) {
+	n, nCaptured := 0, 0
+	for _, rel := range []string{"internal/mod/modpkgload", "internal/mod/modload", "internal/mod/modrequirements", "internal/mod/modimports", "internal/mod/modresolve"} {
+		p := c.pkgOpt(rel)
+		if p == nil {
+			continue
+		}
+		for _, f := range c.funcs(p) {
+			if f.Lit != nil {
+				continue
+			}
+			info := f.Info()
+			var lits []*ast.FuncLit
+			ast.Inspect(f.Body, func(x ast.Node) bool {
+				if l, ok := x.(*ast.FuncLit); ok {
+					lits = append(lits, l)
+				}
+				return true
+			})
+			if len(lits) == 0 {
+				continue
+			}
+			inLit := func(pos token.Pos) *ast.FuncLit {
+				var best *ast.FuncLit
+				for _, l := range lits {
+					if l.Pos() <= pos && pos < l.End() && (best == nil || l.Pos() > best.Pos()) {
+						best = l
+					}
+				}
+				return best
+			}
+			// outermost literal containing pos
+			outerLit := func(pos token.Pos) *ast.FuncLit {
+				var best *ast.FuncLit
+				for _, l := range lits {
+					if l.Pos() <= pos && pos < l.End() && (best == nil || l.Pos() < best.Pos()) {
+						best = l
+					}
+				}
+				return best
+			}
+			_ = inLit
+			type useInfo struct {
+				outside   int
+				lits      map[*ast.FuncLit]bool
+				assignedIn map[*ast.FuncLit]bool
+			}
+			uses := map[types.Object]*useInfo{}
+			get := func(o types.Object) *useInfo {
+				u := uses[o]
+				if u == nil {
+					u = &useInfo{lits: map[*ast.FuncLit]bool{}, assignedIn: map[*ast.FuncLit]bool{}}
+					uses[o] = u
+				}
+				return u
+			}
+			local := func(o types.Object) bool {
+				v, ok := o.(*types.Var)
+				return ok && !v.IsField() && v.Pkg() != nil && v.Parent() != v.Pkg().Scope() && !isParamOf(f, v) &&
+					f.Body.Pos() <= v.Pos() && v.Pos() < f.Body.End() && outerLit(v.Pos()) == nil
+			}
+			ast.Inspect(f.Body, func(x ast.Node) bool {
+				switch y := x.(type) {
+				case *ast.Ident:
+					o := info.Uses[y]
+					if o == nil || !local(o) {
+						return true
+					}
+					if l := outerLit(y.Pos()); l != nil {
+						get(o).lits[l] = true
+					} else {
+						get(o).outside++
+					}
+				case *ast.AssignStmt:
+					for _, lh := range y.Lhs {
+						if o := identObj(info, lh); o != nil && local(o) {
+							if l := outerLit(lh.Pos()); l != nil && info.Defs[identOf(lh)] == nil {
+								get(o).assignedIn[l] = true
+							}
+						}
+					}
+				case *ast.IncDecStmt:
+					if o := identObj(info, y.X); o != nil && local(o) {
+						if l := outerLit(y.X.Pos()); l != nil {
+							get(o).assignedIn[l] = true
+						}
+					}
+				}
+				return true
+			})
+			for o, u := range uses {
+				if len(u.lits) > 0 {
+					nCaptured++
+				}
+				if u.outside > 0 || len(u.lits) != 1 || len(u.assignedIn) == 0 {
+					continue
+				}
+				n++
+				key := f.Name + "/" + o.Name()
+				reason, exc := c17ClosureStateExceptions[key]
+				c.check("capture.no-private-state-outside-closure", key, o.Pos(), exc,
+					"variable "+o.Name()+" is declared in "+f.Name+" but read and assigned only inside one function literal: its value survives from one call of that literal to the next (declare it inside the literal, or list it as reviewed carried state) "+reason)
+			}
+		}
+	}
+	// non-vacuity: the scan must have seen the loaders' closures and what they capture
+	c.check("capture.no-private-state-outside-closure", "scan-coverage", 0, nCaptured >= 20,
+		fmt.Sprintf("the scan considered %d captured local variables in the loader packages (expected at least 20; %d of them are closure-private carried state)", nCaptured, n))
+}
+
+var c17ClosureStateExceptions = map[string]string{}
